@@ -19,7 +19,7 @@ _ACGT = "ACGT"
 # ---------------------------------------------------------------------------
 
 
-def gen_scaffolds(rng, bpt, fasta_backed=True, n=None, hap_prefix=None, edge_gaps_ok=True):
+def gen_scaffolds(rng, bpt, fasta_backed=True, n=None, hap_prefix=None, edge_gaps_ok=True, gap_p=0.8):
     """List of {"name", "rows"}; rows are ["F", contig, start, end, strand] or
     ["G", length, type].  FASTA-backed scaffolds consist of forward fragments
     of the record itself separated by 'scaffold' gaps and begin and end with a
@@ -61,7 +61,7 @@ def gen_scaffolds(rng, bpt, fasta_backed=True, n=None, hap_prefix=None, edge_gap
                 s = rng.choice([1, 1, 1, 11])
                 rows.append(["F", cname, s, s + L - 1, rng.choice([1, 1, 1, -1])])
             pos += L
-            if pos < target - 2 and rng.random() < 0.8:
+            if pos < target - 2 and rng.random() < gap_p:
                 g = min(target - pos - 1, rng.choice([1, 5, 10, 100, 200]))
                 if g > 0:
                     gt = "scaffold" if fasta_backed else rng.choice(["scaffold", "scaffold", "scaffold", "contig", "short_arm", "centromere", "repeat"])
@@ -168,7 +168,7 @@ def render_agp(scaffolds, header=()):
 # ---------------------------------------------------------------------------
 
 
-def gen_map(rng, scaffolds, bpt, edits=None, tagging=True, rich_tags=False):
+def gen_map(rng, scaffolds, bpt, edits=None, tagging=True, rich_tags=False, force=()):
     """PretextView-model map over `scaffolds`.  Returns
     {"bpt", "groups": [{"pieces": [[name, start, end, strand, [tags]]], ...}]}"""
     pieces_by_sc = []
@@ -206,7 +206,7 @@ def gen_map(rng, scaffolds, bpt, edits=None, tagging=True, rich_tags=False):
     groups = [{"pieces": ps} for ps in pieces_by_sc if ps]
     if not groups:
         return None
-    if rng.random() < 0.1:
+    if rng.random() < 0.1 or "junk" in force:
         # the map was drawn from a longer, earlier version of one scaffold: a few dozen
         # pieces lie past its present end (each is reported: "No overlaps found for ...")
         sc = rng.choice(scaffolds)
@@ -298,7 +298,7 @@ def gen_map(rng, scaffolds, bpt, edits=None, tagging=True, rich_tags=False):
     return {"bpt": bpt, "groups": groups}
 
 
-def tag_haplotypes(rng, m):
+def tag_haplotypes(rng, m, force=()):
     """Two-haplotype map: groups are painted and tagged Hap1/Hap2 by the
     haplotype of their first piece; Pretext lists homologues next to each other."""
     groups = m["groups"]
@@ -316,14 +316,14 @@ def tag_haplotypes(rng, m):
             for p in g["pieces"]:
                 p[4][:] = ["Painted", h]
             order.append(g)
-    if order and rng.random() < 0.15 and len(order[0]["pieces"]) > 1:
+    if order and (rng.random() < 0.15 or "double_spelt" in force) and len(order[0]["pieces"]) > 1:
         # the same haplotype spelt two ways inside one scaffold (the tool refuses this)
         pc = order[0]["pieces"][-1]
         pc[4][:] = [t.upper() if t.startswith("Hap") else t for t in pc[4]]
-    if order and rng.random() < 0.4:
+    if order and (rng.random() < 0.4 or "primary_mismatch" in force):
         for p in order[0]["pieces"]:
             p[4].append("Primary")
-        if rng.random() < 0.4 and len(haps) > 1:
+        if (rng.random() < 0.4 or "primary_mismatch" in force) and len(haps) > 1:
             # ... whose explicit haplotype tag disagrees with the name of its first
             # contig (a chromosome assembled from the other haplotype's scaffold)
             other = rng.choice([h for h in haps if h != hap_of(order[0])])
@@ -381,12 +381,21 @@ def splice_short_scaffold(rng, m, scaffolds, bpt):
     shorts = [g for g in groups if len(g["pieces"]) == 1 and g["pieces"][0][2] - g["pieces"][0][1] + 1 < 60
               and g["pieces"][0][1] == 1]
     if not shorts:
-        return
+        # a short scaffold that is too small to appear in the map on its own
+        inmap = {p[0] for g in groups for p in g["pieces"]}
+        absent = [sc for sc in scaffolds if sc["name"] not in inmap and scaffold_length(sc) < 60
+                  and all(r[0] == "F" for r in sc["rows"])]
+        if not absent:
+            return
+        sc = rng.choice(absent)
+        groups.append({"pieces": [[sc["name"], 1, scaffold_length(sc), 1, []]]})
+        shorts = [groups[-1]]
     sg = rng.choice(shorts)
     hosts = [g for g in groups if g is not sg and g["pieces"]]
     if not hosts:
         return
-    host = rng.choice(hosts)
+    # (half of the time the longest host: a first half that spans several FASTA lines)
+    host = rng.choice(hosts) if rng.random() < 0.5 else max(hosts, key=lambda g: sum(p[2] - p[1] + 1 for p in g["pieces"]))
     if len(host["pieces"]) < 2:
         pc = host["pieces"][0]
         ntex = int((pc[2] - pc[1] + 1) // bpt)
@@ -400,11 +409,15 @@ def splice_short_scaffold(rng, m, scaffolds, bpt):
             host["pieces"][0], host["pieces"][1] = host["pieces"][1], host["pieces"][0]
     piece = sg["pieces"].pop()
     piece[4][:] = list(host["pieces"][0][4])
-    host["pieces"].insert(rng.randint(1, len(host["pieces"]) - 1), piece)
+    # after a piece longer than a FASTA line, if there is one
+    after = [k for k in range(len(host["pieces"]) - 1) if host["pieces"][k][2] - host["pieces"][k][1] + 1 > 61]
+    pos = (rng.choice(after) + 1) if after else rng.randint(1, len(host["pieces"]) - 1)
+    host["pieces"].insert(pos, piece)
     m["groups"] = [g for g in groups if g["pieces"]]
+    return True
 
 
-def gen_workload(rng, fasta_backed=True, tagging=True, haps=None, rich_tags=False):
+def gen_workload(rng, fasta_backed=True, tagging=True, haps=None, rich_tags=False, force=()):
     """{"bpt", "scaffolds", "map", "fasta" (if FASTA-backed), "tpf", "agp", "pretext_agp"} or None"""
     bpt = rng.choice([8.0, 10.0, 16.5, 23.116333, 40.0, 64.25])
     if haps is None:
@@ -412,19 +425,27 @@ def gen_workload(rng, fasta_backed=True, tagging=True, haps=None, rich_tags=Fals
     if haps:
         scaffolds = []
         n = rng.choice([1, 2, 3])
-        for h in (("Hap1", "Hap2") if rng.random() < 0.6 else ("Hap1", "Hap2", "Hap3")):
+        for h in (("Hap1", "Hap2") if rng.random() < 0.6 and "three_haps" not in force else ("Hap1", "Hap2", "Hap3")):
             scaffolds += gen_scaffolds(rng, bpt, fasta_backed=fasta_backed, n=n, hap_prefix=h)
     else:
-        scaffolds = gen_scaffolds(rng, bpt, fasta_backed=fasta_backed)
+        scaffolds = gen_scaffolds(rng, bpt, fasta_backed=fasta_backed, gap_p=0.1 if "few_gaps" in force else 0.8)
+        if fasta_backed and (rng.random() < 0.3 or "splice" in force):
+            # one more, shorter than a FASTA line (material for the splice curation below)
+            L = rng.randint(3, 55)
+            name = f"tiny{len(scaffolds) + 1}"
+            scaffolds.append({"name": name, "rows": [["F", name, 1, L, 1]]})
     if fasta_backed:
         merge_adjacent_fragments(scaffolds)
-    m = gen_map(rng, scaffolds, bpt, tagging=tagging and not haps, rich_tags=rich_tags and not haps)
+    m = gen_map(rng, scaffolds, bpt, tagging=tagging and not haps, rich_tags=rich_tags and not haps, force=force)
     if m is None:
         return None
-    if not haps and rng.random() < 0.25:
-        splice_short_scaffold(rng, m, scaffolds, bpt)
+    spliced = False
+    if not haps and (rng.random() < 0.5 or "splice" in force):
+        spliced = bool(splice_short_scaffold(rng, m, scaffolds, bpt))
+    if "splice" in force and not spliced:
+        return None
     if haps:
-        tag_haplotypes(rng, m)
+        tag_haplotypes(rng, m, force=force)
     w = {
         "bpt": bpt,
         "scaffolds": scaffolds,
@@ -434,7 +455,8 @@ def gen_workload(rng, fasta_backed=True, tagging=True, haps=None, rich_tags=Fals
         "pretext_agp": render_pretext_agp(m),
     }
     if fasta_backed:
-        w["fasta"] = render_fasta_for(rng, scaffolds, crlf=rng.random() < 0.15, void_record=rng.random() < 0.06)
+        w["fasta"] = render_fasta_for(rng, scaffolds, crlf=rng.random() < 0.15, void_record=rng.random() < 0.06,
+                                      width=60 if "lines_of_60" in force else None)
     return w
 
 
